@@ -62,28 +62,40 @@ def c01CheckBreakdown (obs : List Path) (bd : List (List (Path × Reason))) : Op
   else if u.any (fun t => !obs.contains t) then some "breakdown entry missing from the summary"
   else none
 
-/-! ### target paths that may be written with one trailing separator -/
+/-! ### paths that may be written with one trailing separator -/
 
-/-- SPEC for target paths that may carry one trailing separator: the directory a target names is
-`dirOf T.path`. On normal target paths this is `Affected`. -/
+/-- `T` ignores `p`, an `ignores` entry naming the directory `dirOf g` -/
+def IgnD (T : Target) (p : Path) : Prop := ∃ g ∈ T.ignores, Within (dirOf g) p
+
+def UseCountsD (cfg : Config) (p u : Path) : Prop := ¬ ∃ V ∈ cfg, V.path = u ∧ IgnD V p
+
+/-- SPEC when target paths, `uses` and `ignores` entries may carry one trailing separator: the
+directory an entry names is `dirOf entry`. On normal paths this is `Affected`. -/
 def AffectedD (strict : Bool) (cfg : Config) (p : Path) (T : Target) : Prop :=
-  T ∈ cfg ∧ ¬ Ign T p ∧
+  T ∈ cfg ∧ ¬ IgnD T p ∧
     (Within (dirOf T.path) p ∨
-      ∃ N ∈ cfg, Within (dirOf T.path) (dirOf N.path) ∧ ¬ Ign N p ∧
-        ∃ u ∈ N.uses, Within u p ∧ (strict = true → UseCounts cfg p u))
+      ∃ N ∈ cfg, Within (dirOf T.path) (dirOf N.path) ∧ ¬ IgnD N p ∧
+        ∃ u ∈ N.uses, Within (dirOf u) p ∧ (strict = true → UseCountsD cfg p u))
 
 def wfAllDB (cfg : Config) : Bool :=
-  wfDB cfg && cfg.all (fun t => t.uses.all normalB && t.ignores.all normalB)
+  wfDB cfg && cfg.all (fun t => t.uses.all (fun u => normalB (dirOf u)) && t.ignores.all (fun g => normalB (dirOf g)))
 
-/-- a change is never the directory of a target itself (it is a file) -/
+def slashed (k : Path) : Bool := k.getLast? == some sep
+
+/-- a change is a file: never the directory that a slash-terminated entry names -/
 def changeOkB (cfg : Config) (p : Path) : Bool :=
-  normalB p && cfg.all (fun T => !(T.path.getLast? == some sep && p == dirOf T.path))
+  normalB p && cfg.all (fun T => !(slashed T.path && p == dirOf T.path) &&
+    T.uses.all (fun u => !(slashed u && p == dirOf u)) && T.ignores.all (fun g => !(slashed g && p == dirOf g)))
+
+def ignDB (T : Target) (p : Path) : Bool := T.ignores.any (fun g => withinB (dirOf g) p)
+
+def useCountsDB (cfg : Config) (p u : Path) : Bool := !(cfg.any (fun V => V.path == u && ignDB V p))
 
 def affectedDB (strict : Bool) (cfg : Config) (p : Path) (T : Target) : Bool :=
-  !ignB T p &&
+  !ignDB T p &&
     (withinB (dirOf T.path) p ||
-      cfg.any (fun N => withinB (dirOf T.path) (dirOf N.path) && !ignB N p &&
-        N.uses.any (fun u => withinB u p && (!strict || useCountsB cfg p u))))
+      cfg.any (fun N => withinB (dirOf T.path) (dirOf N.path) && !ignDB N p &&
+        N.uses.any (fun u => withinB (dirOf u) p && (!strict || useCountsDB cfg p u))))
 
 def c01CheckTargetsD (cfg : Config) (cs : List Path) (obs : List Path) : Option String :=
   if !strictlySorted obs then some "targets not strictly sorted"
